@@ -99,7 +99,7 @@ Proof.
     apply negb_true_iff in Hm. intros Hin. apply memb_In in Hin. unfold cid in Hin. congruence. }
   simpl in Hx. destruct Hx as [<-|Hx]; [apply Hf; now left|].
   apply in_app_iff in Hx. destruct Hx as [Hx|Hx].
-  - apply filter_In in Hx. apply Hf. right. tauto.
+  - apply grp_sub in Hx. apply Hf. now right.
   - apply IH in Hx. destruct Hx as [Hx Hn]. destruct (Hf x (or_intror Hx)) as [H1 H2]. split; [exact H1|exact H2].
 Qed.
 
@@ -114,12 +114,10 @@ Proof.
   simpl in Hnd1. inversion Hnd1 as [|? ? Hc1 Hr1]; subst.
   simpl. rewrite map_app. constructor.
   - intros Hin. apply in_app_iff in Hin. destruct Hin as [Hin|Hin].
-    + apply Hc1. apply in_map_iff in Hin. destruct Hin as (y & Hy & Hyin). apply filter_In in Hyin. apply in_map_iff. exists y. tauto.
+    + apply Hc1. apply in_map_iff in Hin. destruct Hin as (y & Hy & Hyin). apply grp_sub in Hyin. apply in_map_iff. exists y. tauto.
     + apply Hc1. apply in_map_iff in Hin. destruct Hin as (y & Hy & Hyin). apply pull_sub in Hyin. apply in_map_iff. exists y. tauto.
   - apply NoDup_app_disj.
-    + clear -Hr1. induction r1 as [|a r IH]; simpl; [constructor|]. inversion Hr1; subst.
-      destruct (negb _); [|auto]. simpl. constructor; [|auto]. intros Hin. apply H1.
-      apply in_map_iff in Hin. destruct Hin as (y & Hy & Hyin). apply filter_In in Hyin. apply in_map_iff. exists y. tauto.
+    + apply grp_map_nodup. exact Hr1.
     + apply IH. exact Hr1.
     + intros i Hi1 Hi2. apply in_map_iff in Hi2. destruct Hi2 as (y & Hy & Hyin). apply pull_sub in Hyin.
       destruct Hyin as [_ Hn]. apply Hn. apply in_app_iff. right. rewrite Hy. exact Hi1.
